@@ -130,11 +130,32 @@ Definition outcome_bad := Eval vm_compute in map (fun x => match x with (i, _, _
 Definition serve_bad := Eval vm_compute in map (fun x => match x with (i, _, _, _, (_, o, _)) => (i, o) end) (filter (fun x => match x with (_, _, _, _, (_, (k, _), _)) => negb (Nat.eqb k 0) end) judged).
 Definition hidden_bad := Eval vm_compute in map (fun x => match x with (i, _, _, _, (_, _, o)) => (i, o) end) (filter (fun x => match x with (_, _, _, _, (_, _, (k, _))) => negb (Nat.eqb k 0) end) judged).
 (* C02 on a recorded outbox run *)
+(* "recipients that cannot be fetched or parsed are skipped without failing the delivery": the request failed although no call
+   of the delivery part answered with an error other than an unreachable recipient, every specified id was dereferenced and the
+   specification has targets for the graph the trace shows *)
+Definition delivery_failed_for_nothing (u : run) : bool :=
+  String.eqb (u_result u) "err" &&
+  match after_last_create (u_trace u) None with
+  | Some (a, rest) =>
+      functional rest &&
+      forallb (fun p => match p with (EDb _ _, AErr) | (ENewTransport _, AErr) | (ELock _, AErr) | (EUnlock _, AErr) | (EBatchDeliver _ _, AErr) | (EApp _ _, AErr) => false | _ => true end) rest &&
+      match batches rest with [] => true | _ => false end &&
+      match collect_recipients a, self_of_trace rest with
+      | Ok addressed, Some self =>
+          list_eqb (deref_events rest) (derefs_spec (graph_of_trace rest "") addressed) &&
+          match spec_targets (graph_of_trace rest self) a with Ok _ => true | _ => false end
+      | _, _ => false
+      end
+  | None => false
+  end.
 Definition delivery_verdict (u : run) : nat * string :=
   if String.eqb (u_entry u) "postoutbox" || String.eqb (u_entry u) "send" then
-    delivery_judge (u_trace u)
+    match delivery_judge (u_trace u)
       (String.eqb (u_result u) "ok" && c_federating (u_cfg u) &&
-       (String.eqb (u_entry u) "send" || existsb (fun p => match fst p with EWriteHeader n => Nat.eqb n 201 | _ => false end) (u_trace u)))
+       (String.eqb (u_entry u) "send" || existsb (fun p => match fst p with EWriteHeader n => Nat.eqb n 201 | _ => false end) (u_trace u))) with
+    | (0, _) => if c_federating (u_cfg u) && delivery_failed_for_nothing u then (1, "the delivery failed although every recipient could be resolved or skipped") else (0, "")
+    | v => v
+    end
   else (0, "").
 Definition delivery_all := Eval vm_compute in map (fun p => (fst p, delivery_verdict (snd p))) (combine (seq 0 (length observed)) observed).
 Definition delivery_bad := Eval vm_compute in filter (fun x => Nat.eqb (fst (snd x)) 1) delivery_all.
